@@ -107,6 +107,11 @@ def parseOut (s : String) : Option Outcome :=
 def monitor (op obs : String) : String :=
   match parseOp op with
   | none => if obs = "bad-op" then "ok" else "FAIL bad-op"
+  | some _ =>
+  if obs = "HANG" then "FAIL machine-hung (never reached the expected quiescent point / never consumed a delivered message)" else
+  if obs.startsWith "PANIC" then "FAIL panic" else
+  match parseOp op with
+  | none => "FAIL bad-op"
   | some (specs, evs) =>
     match splitWs obs with
     | [sq, out, hist, real, _drop, lg] =>
